@@ -160,6 +160,9 @@ def run_case(case, ref, timeout=240):
         c[k] = c.get(k, 0) + n
 
     def finding(oracle, sig_, detail):
+        if case.get("sig_tag"):
+            # pinned cases that pin a listed defect carry its name in every signature they produce
+            sig_ = sig_ + ":" + case["sig_tag"]
         res["findings"].append({"oracle": oracle, "signature": sig_, "detail": f"[{case.get('family')}] {detail}", "case": case})
 
     inp = case_input(case)
@@ -451,6 +454,24 @@ def build_workload(tier, seed, ref):
         for m in MODES[1:]:
             cases.append(mk(fam + ":check", grid_inputs[-2][1], tree=itree, args=args, expect_skip=skip, mode=m))
         cases.append(mk(fam + ":chunk", grid_inputs[-2][1], tree=itree, args=args, expect_skip=skip, feed="chunk:2"))
+    # ---- pinned E2: a second .styluaignore next to the named path, besides the one in cwd. A path is
+    # ignored when either file excludes it (gitignore semantics: the nearer file adds patterns, it
+    # does not switch the outer one off).
+    ntree = {".styluaignore": "dist/\nlib/\n", "vendor/.styluaignore": "generated.lua\n*.min.lua\n", "lib/.styluaignore": "# nothing ignored here\n",
+             "vendor/x.lua": "return 1\n", "lib/m.lua": "return 1\n"}
+    nested = [("ign2:nearer-file-excludes", "vendor/generated.lua", True, None),
+              ("ign2:nearer-file-pattern", "vendor/a.min.lua", True, None),
+              ("ign2:intermediate-file-pattern", "vendor/deep/a.min.lua", True, "intermediate-dir-styluaignore-not-consulted"),
+              ("ign2:nearer-file-present-not-matching", "vendor/other.lua", False, None),
+              ("ign2:cwd-file-excludes-dir-without-own-file", "dist/a.lua", True, None),
+              ("ign2:neither-excludes", "src/a.lua", False, None),
+              ("ign2:cwd-file-excludes-dir-with-own-file", "lib/m.lua", True, "own-dir-styluaignore-shadows-cwd")]
+    for fam, path, skip, tag in nested:
+        for n, b in grid_inputs[:: (6 if quick else 2)]:
+            kw = dict(tree=ntree, args=["--respect-ignores", "--stdin-filepath", path], expect_skip=skip, src=n)
+            if tag:
+                kw["sig_tag"] = tag
+            cases.append(mk(fam, b, **kw))
     # ---- pinned F: multi-megabyte inputs (first, they take longest)
     big = []
     big.append(mk("big:5MB-comments", ("bigcomment", 52000), strace=False))
